@@ -12,6 +12,7 @@ from typing import (
     Union,
 )
 
+import numpy as np
 import onnx_ir as ir
 
 import onnxscript
@@ -446,6 +447,10 @@ class Converter:
         ovar = self._generate_unique_name(suggested_name)
 
         try:
+            if isinstance(pyvalue, np.ndarray):
+                # Script-time constants are fixed when the decorator runs: do not share the
+                # buffer of a (mutable) array with the caller.
+                pyvalue = pyvalue.copy()
             tensor = ir.tensor(pyvalue, name=ovar)
         except Exception as exc:  # pylint: disable=broad-exception-caught
             self._fail(
